@@ -77,6 +77,9 @@ def expand(block, tier):
                         fmts += ["md", "xlsx"]
                     for fmt in fmts:
                         yield {"ch": ch, "s": s, "ref": ref, "lang": lang, "fmt": fmt}
+                    # plain text whose neighbour (the other language's cell of the same row, emitted just before it) holds a reference
+                    if ch in LANG_CH and lang and ref == "none" and (L == 1 or tier == "thorough"):
+                        yield {"ch": ch, "s": s, "ref": ref, "lang": lang, "fmt": "dict", "neigh": True}
                     # the same text written in a second cell of the same kind (another row, or the other language)
                     if ch in OUTPUT_CH and (L == 1 or tier == "thorough") and ref in ("none", "between", "after"):
                         yield {"ch": ch, "s": s, "ref": ref, "lang": lang, "fmt": "dict", "twin": True}
@@ -90,7 +93,7 @@ def with_ref(s, ref):
     return {"none": s, "before": "${t0} " + s, "after": s + " ${t0}", "between": s + " ${t0} " + s}[ref]
 
 
-def build(ch, text, lang, twin=False):
+def build(ch, text, lang, twin=False, neigh=False):
     q = {"type": "select_one c", "name": "q", "label": "Q"}
     q2 = {"type": "select_one c", "name": "q2", "label": "Q2"}
     rows = [{"type": "text", "name": "t0", "label": "T0"}, {"type": "begin group", "name": "g", "label": "G"}, q, {"type": "end group"}]
@@ -101,7 +104,11 @@ def build(ch, text, lang, twin=False):
     st = {}
 
     def put(row, col, second=False):
-        if lang:
+        if lang and neigh:
+            row.pop(col, None)
+            row[f"{col}::en"] = "N ${t0} n"
+            row[f"{col}::fr"] = text
+        elif lang:
             row.pop(col, None)
             row[f"{col}::en"] = text
             row[f"{col}::fr"] = text if (twin and not second) else "F"
@@ -161,8 +168,8 @@ def skeleton(el):
 
 
 @functools.lru_cache(maxsize=None)
-def inert_skeleton(ch, ref, lang, fmt, twin=False):
-    wb = build(ch, with_ref("x", ref), lang, twin)
+def inert_skeleton(ch, ref, lang, fmt, twin=False, neigh=False):
+    wb = build(ch, with_ref("x", ref), lang, twin, neigh)
     src, kw = render.render(wb, fmt)
     out = run_convert(src, **kw)
     assert out.kind == "ok", (ch, ref, lang, out.msg)
@@ -250,7 +257,8 @@ def check_one(case):
     ch, s, ref, lang, fmt = case["ch"], case["s"], case["ref"], case["lang"], case["fmt"]
     text = with_ref(s, ref)
     twin = bool(case.get("twin"))
-    wb = build(ch, text, lang, twin)
+    neigh = bool(case.get("neigh"))
+    wb = build(ch, text, lang, twin, neigh)
     if fmt == "md" and not render.md_representable(wb):
         return {"outcome": "not-representable", "nt": False, "viol": [], "tr": 1}
     src, kw = render.render(wb, fmt)
@@ -267,9 +275,9 @@ def check_one(case):
     except O.ParseFailure as e:
         return {"outcome": "ok", "nt": False, "viol": [(f"not-wellformed:{sig}", f"s={s!r}: {e}")], "tr": ntr}
     sk = skeleton(obs.root)
-    if sk != inert_skeleton(ch, ref, lang, fmt, twin):
+    if sk != inert_skeleton(ch, ref, lang, fmt, twin, neigh):
         viol.append((f"skeleton-changed:{sig}", f"s={s!r}"))
-    loc = locate(obs, ch, lang)
+    loc = locate(obs, ch, lang, pick_lang="fr") if neigh else locate(obs, ch, lang)
     stripped = ch in SURVEY_CH or fmt != "dict"
     want = text
     if loc is None:
